@@ -260,11 +260,18 @@ class LogisticRegression(linear_model.LogisticRegression, DiffprivlibMixin):
 
         path_func = delayed(_logistic_regression_path)
 
+        # Seed each one-vs-rest problem before the parallel section, so that a seeded fit does not depend on n_jobs.
+        # Without a seed, every problem draws its noise from its own secure generator.
+        if self.random_state is None:
+            class_seeds = [None] * n_classes
+        else:
+            class_seeds = random_state.randint(np.iinfo(np.int32).max, size=n_classes)
+
         fold_coefs_ = Parallel(n_jobs=self.n_jobs, verbose=self.verbose, prefer='processes')(
             path_func(X, y, epsilon=self.epsilon / n_classes, data_norm=self.data_norm, pos_class=class_, Cs=[self.C],
                       fit_intercept=self.fit_intercept, max_iter=self.max_iter, tol=self.tol, verbose=self.verbose,
-                      coef=warm_start_coef_, random_state=random_state, check_input=False)
-            for class_, warm_start_coef_ in zip(classes_, warm_start_coef))
+                      coef=warm_start_coef_, random_state=class_seed, check_input=False)
+            for class_, warm_start_coef_, class_seed in zip(classes_, warm_start_coef, class_seeds))
 
         fold_coefs_, _, n_iter_ = zip(*fold_coefs_)
         self.n_iter_ = np.asarray(n_iter_, dtype=np.int32)[:, 0]
